@@ -317,6 +317,8 @@ func initBuilders() {
 		{{0, 0}, {10, 0}, {3, 0}, {20, 0}},                                                                     // collinear, partial overlap
 		{{0, 0, 0}, {0, 0, 0}, {1, 1, 1}, {2, 2, 2}},                                                           // zero-length first segment (3D shortcuts)
 		{{0, 0, 0}, {4, 0, 0}, {0, 1, 0}, {4, 1, 0}},                                                           // parallel in 3D
+		{{0, 0}, {1e-200, 1e-200}, {1e200, 1e200}, {1e-300, 2e300}},                                            // collinear over 400 decades: the exact fallback needs its full width
+		{{1e300, 1e-300}, {-1e300, -1e-300}, {3e-300, 3e-600 * 1e300}, {5e-324, 1e308}},                        // collinear through the origin, ordinates from the smallest to the largest magnitudes
 	}
 	for i, tp := range tuples {
 		tp := tp
